@@ -14,9 +14,11 @@ package main
 //  * on every entry that is returned: all accessors, comparators, Verify, re-encoding.
 
 import (
+	"berty.tech/go-ipfs-log/enc"
 	"bufio"
 	"bytes"
 	"context"
+	"encoding/base64"
 	"encoding/hex"
 	"encoding/json"
 	"fmt"
@@ -609,6 +611,111 @@ func runC12(seed int64, tier string, outDir string) *result {
 		}
 		stats[fmt.Sprintf("manifest-outcome-%d", class)]++
 		decList.add(fmt.Sprintf("Build_dec_case true %s %d", c08Bytes(raw), class), "manifest "+m.label)
+	}
+
+	// ---- blocks with sealed links, decoded by a reader that HOLDS a link key ----
+	// (the inner CBOR of enc_links is decoded by the library's own atlas, and the nonce and the
+	// sealed bytes come from the untrusted block: neither may crash the reader)
+	{
+		key, err := enc.NewSecretbox([]byte("0123456789abcdef0123456789abcdef"))
+		if err != nil {
+			panic(err)
+		}
+		kio := cio.ApplyOptions(&cbor.Options{LinkKey: key})
+		tryKeyed := func(label string, encLinks, nonce []byte) {
+			res.Evaluations++
+			m := c12CloneMap(base)
+			m["next"] = []interface{}{}
+			m["refs"] = []interface{}{}
+			m["enc_links"] = base64.StdEncoding.EncodeToString(encLinks)
+			m["enc_links_nonce"] = base64.StdEncoding.EncodeToString(nonce)
+			node, err := cbornode.WrapObject(m, 0x12, -1)
+			if err != nil {
+				stats["unencodable-mutation"]++
+				return
+			}
+			raw := node.RawData()
+			shapes["keyed:"+strings.SplitN(label, "=", 2)[0]] = struct{}{}
+			desc := c08Case{Kind: "sealed-links-entry", Note: label, Block: hex.EncodeToString(raw)}
+			var got iface.IPFSLogEntry
+			if p, msg := c12Guard(func() {
+				if e, err := kio.DecodeRawEntry(c12RawNode{data: raw}, node.Cid(), provider); err == nil {
+					got = e
+				}
+			}); p {
+				fail("decode", "C12:panic:DecodeRawEntry:link-key", fmt.Sprintf("%s: %s", label, msg), desc)
+			}
+			stats["keyed-decodes"]++
+			if got != nil {
+				stats["keyed-decodes-accepted"]++
+				for _, f := range c12Exercise(got, ents[:2], provider, kio) {
+					fail("accessors", f.Key, label+": "+f.Detail, desc)
+				}
+			}
+			d.putRaw(node.Cid(), raw)
+			if p, msg := c12Guard(func() { _, _ = entry.FromMultihashWithIO(ctx, api, node.Cid(), provider, kio) }); p {
+				fail("decode", "C12:panic:FromMultihashWithIO:link-key", fmt.Sprintf("%s: %s", label, msg), desc)
+			}
+		}
+		// (a) arbitrary sealed bytes and nonces of every length around the legal one
+		for nl := 0; nl <= 40; nl++ {
+			for _, el := range []int{1, 15, 16, 17, 40, 80} {
+				tryKeyed(fmt.Sprintf("nonce-len=%d/enc-len=%d", nl, el), randBytes(rng, el), randBytes(rng, nl))
+			}
+		}
+		// (b) inner payloads sealed by a key holder: hostile link lists
+		h := func(s string) []byte { b, _ := hex.DecodeString(s); return b }
+		vb := append([]byte{0}, valid.Bytes()...)
+		link := func(b []byte) []byte { // tag 42 over a byte string (lengths < 256)
+			out := []byte{0xd8, 0x2a}
+			if len(b) < 24 {
+				out = append(out, 0x40+byte(len(b)))
+			} else {
+				out = append(out, 0x58, byte(len(b)))
+			}
+			return append(out, b...)
+		}
+		inner := func(next [][]byte, refs [][]byte) []byte {
+			out := []byte{0xa2, 0x64, 'n', 'e', 'x', 't', 0x80 + byte(len(next))}
+			for _, n := range next {
+				out = append(out, n...)
+			}
+			out = append(out, 0x64, 'r', 'e', 'f', 's', 0x80+byte(len(refs)))
+			for _, n := range refs {
+				out = append(out, n...)
+			}
+			return out
+		}
+		payloads := map[string][]byte{
+			"inner=valid":              inner([][]byte{link(vb)}, nil),
+			"inner=empty-link":         inner([][]byte{link(nil)}, nil),
+			"inner=prefix-only-link":   inner([][]byte{link([]byte{0})}, nil),
+			"inner=wrong-multibase":    inner([][]byte{link(append([]byte{1}, valid.Bytes()...))}, nil),
+			"inner=truncated-cid":      inner([][]byte{link(vb[:len(vb)/2])}, nil),
+			"inner=one-byte-link":      inner([][]byte{link([]byte{7})}, nil),
+			"inner=empty-ref":          inner(nil, [][]byte{link(nil)}),
+			"inner=tag42-over-int":     inner([][]byte{{0xd8, 0x2a, 0x05}}, nil),
+			"inner=tag42-over-text":    inner([][]byte{{0xd8, 0x2a, 0x61, 'x'}}, nil),
+			"inner=untagged-bytes":     inner([][]byte{{0x41, 0x00}}, nil),
+			"inner=next-not-a-list":    h("a2646e65787405647265667380"),
+			"inner=null":               {0xf6},
+			"inner=empty":              {},
+			"inner=garbage":            randBytes(rng, 30),
+			"inner=many-links-and-bad": inner([][]byte{link(vb), link(vb), link(nil)}, [][]byte{link(vb)}),
+		}
+		var labels []string
+		for k := range payloads {
+			labels = append(labels, k)
+		}
+		sort.Strings(labels)
+		for _, lb := range labels {
+			nonce := randBytes(rng, 24)
+			sealed, err := key.SealWithNonce(payloads[lb], nonce)
+			if err != nil {
+				panic(err)
+			}
+			tryKeyed(lb, sealed, nonce)
+		}
 	}
 
 	// ---- raw mutated bytes ----
